@@ -1,7 +1,9 @@
 /-
-C03 — no operation mutates its arguments (PARTIAL: the theorems cover the accumulating helpers
-modelled on the heap of `Model/Heap.lean`; the ~80 public entry points are covered by the
-fingerprint correspondence of `harness/c03.py`).
+C03 — no operation mutates its arguments. Sections 1–4: the accumulating helpers modelled by hand on the
+heap of `Model/Heap.lean`. Section 5: the frame property for (almost) every function of the package
+through a translator into the small imperative language of `Model/HeapIR.lean` and a static discipline
+proved sound once (`frame_of_discipline`, `frame_chain_ir`, `all_disciplined`). The fingerprint
+correspondence of `harness/c03.py` runs the real implementation.
 
 Shape of every frame theorem:
     pattern.targetsFresh → ∀ heap args, every location that existed at entry — in particular every
@@ -15,6 +17,9 @@ Helper lemmas: `Lemmas/Heap.lean`.
 import Bermuda.Model.Heap
 import Bermuda.Lemmas.Heap
 import Bermuda.Generated.Accum
+import Bermuda.Model.HeapIR
+import Bermuda.Lemmas.HeapIRMain
+import Bermuda.Generated.HeapIR
 namespace Bermuda.Properties.C03
 open Bermuda.Heap
 
@@ -332,20 +337,204 @@ example :
         2 ["paid_loss"] ((1 : Rat) / 2) (.scalar 1)).1.get 0 = some (.arr [1, 2]) := by
   decide +kernel
 
--- OPEN frame_reachable_entry_points
---   the same frame statement for the PUBLIC ENTRY POINTS (~80 operations of the harness registry) and
---   for the anchor functions whose bodies are not modelled on the heap: `to_incremental`,
---   `to_cumulative` (beyond `_values_diff`/`_values_add`), `coalesce`, `_aggregate_period`,
---   `utils.add_statics`, `long_data_frame_to_triangle`, `monthly_ep_to_quarterly_ep`, `blend_samples`
---   with the mixture method (numpy RNG), `Cell.replace` with callables.
---   COVERED by frame theorems above (model + theorem + pattern freshness by `decide`):
---   `_conforming_sum`, `_conforming_weighted_average`, `_values_add`, `_values_diff`, `_merge_cell_pair`,
---   `Cell._base_replace`/`Cell.replace(values=…)`, `Cell.select`, `Cell.derive_fields`,
---   `Cell.derive_metadata`, `Cell.add_statics`, `_overwrite_values`, `_thin_cell`,
---   `_convert_cell_currency`, `summarize_cell_values` (sum rules), the `vals_dict[field] += …` loop of
---   `_accident_quarter_to_policy_year_slice`, `blend_cells` (linear), `_weight_cell_values`.
---   For everything else the accumulator patterns ARE regenerated and checked (`all_patterns_fresh`, 28
---   functions) and the behaviour is covered by the fingerprint correspondence (every registered
---   operation × shape × chain position, plain and read-only runs).
+/-! ### 5. the frame property through a TRANSLATOR: HeapIR
+
+`harness/translate_c03ir.py` translates every function, method and module-level lambda of /repo's package
+into the language of `Model/HeapIR.lean` on every run (`Generated/HeapIR*.lean`); sections 1–4 above keep
+their hand-written models. The discipline `writesOnlyFresh` is an abstract interpretation (classes: immutable
+value / object allocated in this call at a ghost level / anything); its soundness is proved ONCE
+(`Lemmas/HeapIR*.lean`, `exec_sound`, `runFn_good`, `sem_good`) and instantiated here. -/
+
+section HeapIR
+open Bermuda.HeapIR
+
+/-- SOUNDNESS OF THE DISCIPLINE. If every function of a program respects the discipline, then a call of
+any of its functions — any arguments, any heap, any oracle (= every branch choice, every iteration count,
+every key, every datum, every result of a pure callback), any call depth `d`, whether the call returns or
+raises — leaves every location that existed at entry unchanged: `Preserves h.size h h'`. In particular every
+location reachable from the arguments (see `frame_of_discipline_reachable`). -/
+theorem frame_of_discipline (P : List Fn) (hP : disciplined P = true) (d i : Nat) (args : List Ref) (h : Heap)
+    (o : Oracle) : Preserves h.size h (sem P d i args h o).1 := by
+  obtain ⟨_, _, _, p, _⟩ := sem_good P hP d i args h o 0 Typing.empty (Typed.empty 0 h) (Nat.zero_le _)
+  exact p
+
+/-- the same for one function run against any frame-respecting, class-respecting call semantics -/
+theorem frame_of_discipline_fn {sums : List Cls} {cs : CallSem} (hcs : GoodCalls sums cs) (f : Fn)
+    (hf : writesOnlyFresh sums f = true) (args : List Ref) (h : Heap) (o : Oracle) :
+    Preserves h.size h (runFn cs f args h o).1 := by
+  obtain ⟨_, _, _, p, _⟩ := runFn_good hcs f hf args h o 0 Typing.empty (Typed.empty 0 h) (Nat.zero_le _)
+  exact p
+
+/-- in terms of reachability: every location reachable from an argument that lives in the entry heap holds
+the same object after the call -/
+theorem frame_of_discipline_reachable (P : List Fn) (hP : disciplined P = true) (d i : Nat) (args : List Ref)
+    (h : Heap) (o : Oracle) (arg : Ref) (_ : arg ∈ args) (hwf : ∀ l ∈ reach h arg, l < h.size) :
+    ∀ l ∈ reach h arg, (sem P d i args h o).1.get l = h.get l :=
+  frame_reachable (frame_of_discipline P hP d i args h o) arg hwf
+
+/-- POSITION IN A CHAIN: a sequence of calls of disciplined functions (each with its own arguments — which
+may be results of earlier calls — and its own oracle) leaves everything that existed BEFORE THE CHAIN
+unchanged, after every prefix of the chain -/
+theorem frame_chain_ir (P : List Fn) (hP : disciplined P = true) (d : Nat)
+    (calls : List (Nat × List Ref × Oracle)) (h : Heap) :
+    Preserves h.size h (calls.foldl (fun g c => (sem P d c.1 c.2.1 g c.2.2).1) h) := by
+  suffices ∀ (calls : List (Nat × List Ref × Oracle)) (g : Heap), Preserves h.size h g →
+      Preserves h.size h (calls.foldl (fun g c => (sem P d c.1 c.2.1 g c.2.2).1) g) from
+    this calls h (Preserves.refl (Nat.le_refl _))
+  intro calls
+  induction calls with
+  | nil => intro g hg; exact hg
+  | cons c rest ih =>
+    intro g hg
+    simp only [List.foldl_cons]
+    exact ih _ (hg.trans ((frame_of_discipline P hP d c.1 c.2.1 g c.2.2).mono hg.1))
+
+/-- TODAY'S SOURCE: every function of the generated program respects the discipline. The chunks are
+re-proved by `decide +kernel` in `Generated/HeapIRC*.lean` against the source as it is NOW (a store,
+`+=`, `.update`, `.sort()`, `out=` … through a reference that may reach a parameter makes this fail). -/
+theorem all_disciplined : disciplined Generated.HeapIR.program = true := by
+  unfold disciplined
+  rw [Generated.HeapIR.program_sums]
+  simp only [Generated.HeapIR.program, List.all_append, Bool.and_eq_true]
+  exact ⟨⟨⟨⟨⟨⟨⟨Generated.HeapIR.chunk0_disciplined, Generated.HeapIR.chunk1_disciplined⟩,
+    Generated.HeapIR.chunk2_disciplined⟩, Generated.HeapIR.chunk3_disciplined⟩,
+    Generated.HeapIR.chunk4_disciplined⟩, Generated.HeapIR.chunk5_disciplined⟩,
+    Generated.HeapIR.chunk6_disciplined⟩, Generated.HeapIR.chunk7_disciplined⟩
+
+/-- THE FRAME PROPERTY OF THE TRANSLATED FUNCTIONS (this replaces the former OPEN statement
+`frame_reachable_entry_points` for everything in `Generated.HeapIR.program`).
+
+COVERS every function, method, property and module-level lambda of /repo's `bermuda` package that the
+translator places in `program` (counts and names: evidence of the run; today 451 of 464, among them every
+operation of the harness registry except the ones listed in the OPEN block below): Triangle / Cell /
+Metadata methods and properties, all of `bermuda.utils`, `bermuda.io` writers and readers, `bermuda.plot`,
+`bermuda.date_utils`, `bermuda.matrix`, the methods `bermuda/factory.py` attaches to `Triangle`.
+
+STATES: for the IR program of each of them, called with any arguments on any heap at any position of a
+chain, with any oracle and call depth: every location allocated before the call is unchanged afterwards,
+whether it returns or raises.
+
+TRUSTED (not proved; listed in full in the evidence, `trusted_summaries()` of the translator):
+* the translator itself (Python AST → HeapIR): desugaring of comprehensions / loops / `with` / `try`,
+  attribute and item access as `load`, constructors as allocation + `__init__`, properties as calls,
+  keys of dicts are not tracked (iteration over `.keys()` / `.items()` yields arbitrary references),
+  `a[i]` is an element load (`a[i:j]` a view or a copy), dunder dispatch of operators is not followed
+  (`+` gives a number / new array or a new container of the operands' entries);
+* the tables of summaries for library calls: pure results by kind (immutable / number-or-new-array / new
+  container of the arguments' entries / new object / element / alias), writers (`append`, `update`, `sort`,
+  `fill`, `shuffle(x)`, `np.put`, `setattr` …) and the keywords `out=`, `overwrite_input=`, `inplace=`,
+  `copy=False`; anything not in a table is `unknown` and is rejected when it receives an object;
+* callbacks (callable parameters, callables taken out of containers) are pure;
+* parameters annotated `int / float / str / bool / date / None / Literal / tuples of these` hold immutable
+  values; a function returning one of its parameters unchanged has that return performed by its caller;
+* four functions of /repo are summarised as pure after review (`REVIEWED_PURE` in the translator):
+  `date_utils.standardize_resolution`, `date_utils.resolution_delta`,
+  `basis._policy_earned_premium_share_by_month`, `data_frame_input.long_data_frame_to_triangle`;
+* caches (`cached_property`, `functools.cache`) write the cache slot of their receiver: not modelled. -/
+theorem frame_translated_functions (d i : Nat) (args : List Ref) (h : Heap) (o : Oracle) :
+    Preserves h.size h (sem Generated.HeapIR.program d i args h o).1 :=
+  frame_of_discipline _ all_disciplined d i args h o
+
+theorem frame_translated_chain (d : Nat) (calls : List (Nat × List Ref × Oracle)) (h : Heap) :
+    Preserves h.size h (calls.foldl (fun g c => (sem Generated.HeapIR.program d c.1 c.2.1 g c.2.2).1) h) :=
+  frame_chain_ir _ all_disciplined d calls h
+
+/-! #### negative controls: programs that violate the discipline AND concretely mutate an argument -/
+
+/-- `total = values[0]; for v in values: total += v; return total` -/
+def irBadSum : Fn := ⟨"bad_sum", [0],
+  .seq (.load 1 0 .dyn) (.seq (.loop [.any, .any, .any] (.seq (.load 2 0 .dyn) (.aug 1 2))) (.ret 1)), .any⟩
+
+/-- `total = 0; for v in values: total += v; return total` -/
+def irGoodSum : Fn := ⟨"good_sum", [0],
+  .seq (.const 1) (.seq (.loop [.any, .lv .num, .any] (.seq (.load 2 0 .dyn) (.aug 1 2))) (.ret 1)), .lv .num⟩
+
+/-- witness: a list (location 2) of two arrays `[1]`, `[2]` -/
+def irWitness : Heap := ⟨[.arr [1], .arr [2], .dict [("0", .loc 0), ("1", .loc 1)]]⟩
+
+theorem irBadSum_rejected : writesOnlyFresh [] irBadSum = false := by decide +kernel
+theorem irGoodSum_accepted : disciplined [irGoodSum] = true := by decide +kernel
+
+/-- the rejected program really writes into the first argument array (`[1]` becomes `[3]`) -/
+theorem irBadSum_mutates :
+    (sem [irBadSum] 1 0 [.loc 2] irWitness [.n 0, .n 1, .n 1, .n 0, .d [3]]).1.get 0 = some (.arr [3]) := by
+  decide +kernel
+
+/-- the accepted one, same input: both arrays intact, the result is a NEW array -/
+theorem irGoodSum_frame :
+    (sem [irGoodSum] 1 0 [.loc 2] irWitness [.d [0], .n 2, .n 0, .n 1, .d [1], .n 1, .n 0, .d [3]]).1.objs
+      = [.arr [1], .arr [2], .dict [("0", .loc 0), ("1", .loc 1)], .arr [3]] ∧
+    (match (sem [irGoodSum] 1 0 [.loc 2] irWitness [.d [0], .n 2, .n 0, .n 1, .d [1], .n 1, .n 0, .d [3]]).2.1 with
+      | .ok r => decide (r = .loc 3) | .error _ => false) = true := by
+  decide +kernel
+
+/-- `values = cell.values; values[k] = v` (the seeded `_thin_cell` / `fill_forward_gaps` shape) -/
+def irAliasStore : Fn := ⟨"alias_store", [0, 1], .seq (.load 2 0 (.lit "values")) (.store 2 (.lit "k") 1), .scalar⟩
+
+theorem irAliasStore_rejected : writesOnlyFresh [] irAliasStore = false := by decide +kernel
+
+/-- cell (location 1) with values dict (location 0) `{k: 5}`: the store lands in the argument's dict -/
+theorem irAliasStore_mutates :
+    (sem [irAliasStore] 1 0 [.loc 1, .scalar 7] ⟨[.dict [("k", .scalar 5)], .dict [("values", .loc 0)]]⟩ []).1.get 0
+      = some (.dict [("k", .scalar 7)]) := by decide +kernel
+
+/-- `cell1.values.update(cell2.values)` (the seeded `_merge_cell_pair` shape) -/
+def irUpdateParam : Fn := ⟨"update_param", [0, 1],
+  .seq (.load 2 0 (.lit "values")) (.seq (.load 3 1 (.lit "values")) (.merge 2 3)), .scalar⟩
+
+theorem irUpdateParam_rejected : writesOnlyFresh [] irUpdateParam = false := by decide +kernel
+
+theorem irUpdateParam_mutates :
+    (sem [irUpdateParam] 1 0 [.loc 2, .loc 3]
+      ⟨[.dict [("a", .scalar 1)], .dict [("b", .scalar 2)], .dict [("values", .loc 0)], .dict [("values", .loc 1)]]⟩ []).1.get 0
+      = some (.dict [("a", .scalar 1), ("b", .scalar 2)]) := by decide +kernel
+
+/-- `def f(x, acc=[]): acc.append(x); return acc` — the default list is a parameter like any other: it
+lives in the heap before the call -/
+def irDefaultArg : Fn := ⟨"default_arg", [0, 1], .seq (.store 1 .dyn 0) (.ret 1), .any⟩
+
+theorem irDefaultArg_rejected : writesOnlyFresh [] irDefaultArg = false := by decide +kernel
+
+theorem irDefaultArg_mutates :
+    (sem [irDefaultArg] 1 0 [.scalar 4, .loc 0] ⟨[.dict []]⟩ [.n 0]).1.get 0 = some (.dict [("k0", .scalar 4)]) := by
+  decide +kernel
+
+/-- `cells = triangle.cells; cells.sort()` -/
+def irSortParam : Fn := ⟨"sort_param", [0], .seq (.load 1 0 (.lit "cells")) (.shrink 1), .scalar⟩
+
+theorem irSortParam_rejected : writesOnlyFresh [] irSortParam = false := by decide +kernel
+
+theorem irSortParam_mutates :
+    (sem [irSortParam] 1 0 [.loc 1] ⟨[.dict [("0", .scalar 1), ("1", .scalar 2)], .dict [("cells", .loc 0)]]⟩ [.n 0, .n 1]).1.get 0
+      = some (.dict [("1", .scalar 2), ("0", .scalar 1)]) := by decide +kernel
+
+/-- the benign counterpart `d = dict(a); d.update(b)` is accepted: the update goes into the NEW dict -/
+def irCopyUpdate : Fn := ⟨"copy_update", [0, 1], .seq (.alloc 2 (.sh 0) (.union [0])) (.seq (.merge 2 1) (.ret 2)), .lv (.sh 0)⟩
+
+theorem irCopyUpdate_accepted : disciplined [irCopyUpdate] = true := by decide +kernel
+
+/-- a caller of a mutating callee is caught at the callee: the program is not disciplined -/
+theorem irCaller_rejected :
+    disciplined [irAliasStore, ⟨"caller", [0, 1], .call 2 0 [0, 1], .scalar⟩] = false := by decide +kernel
+
+end HeapIR
+
+-- OPEN frame_registry_entry_points_remaining
+--   `frame_translated_functions` covers every operation of the harness registry (Triangle / Cell API,
+--   bermuda.utils, io writers and readers, build_plot_data, plot_*) EXCEPT the entry points below, which stay
+--   covered by the fingerprint correspondence only:
+--   * `Triangle.from_wide_data_frame` / `wide_data_frame_to_triangle`, `Triangle.from_wide_csv` /
+--     `wide_csv_to_triangle`: they call `_check_index_columns`, which converts date columns of the data frame it
+--     is handed IN PLACE (`df[column] = pd.to_datetime(df[column])`) — outside the discipline by design;
+--   * `Triangle.from_long_data_frame` / `long_data_frame_to_triangle`: `cells[index].values[field] = value`
+--     writes into the values dict of a cell built in the same call; the analysis is field-insensitive for
+--     constructed objects, the function is summarised as pure after review (REVIEWED_PURE);
+--   * reviewed-pure helpers not covered by a theorem: `date_utils.standardize_resolution`,
+--     `date_utils.resolution_delta` (`quantity *= 3` on an int), `basis._policy_earned_premium_share_by_month`;
+--   * mutators by contract, not arguments of the property: `Matrix.__setitem__`, `_BodyRawIO.readinto`,
+--     `_open_s3_stream` (module-level client cache).
+--   And, for all functions: the theorem is about the IR program; that the IR over-approximates the Python
+--   function rests on the translator and its summary tables (trusted base above), cross-checked every run by
+--   the fingerprint correspondence on the real implementation.
 
 end Bermuda.Properties.C03
